@@ -120,7 +120,20 @@ func (g *c12Gen) refName() []byte {
 	}
 }
 
-func (g *c12Gen) width() int { return 1 + g.rng.Intn(3)/2 } // mostly 1-byte, sometimes 2-byte PkgLength
+// width of a PkgLength encoding: mostly 1 byte, often 2, now and then 3 or 4 (all four are legal for
+// any length that fits)
+func (g *c12Gen) width() int {
+	switch k := g.rng.Intn(12); {
+	case k < 7:
+		return 1
+	case k < 10:
+		return 2
+	case k == 10:
+		return 3
+	default:
+		return 4
+	}
+}
 
 func (g *c12Gen) constant() []byte {
 	switch g.rng.Intn(8) {
@@ -576,6 +589,17 @@ func TestVerifC12Seeds(t *testing.T) {
 		}
 		_ = enc.Encode(map[string]interface{}{"name": name, "b": ints})
 	}
+	if os.Getenv("C12_SEEDS_TABLES") != "" {
+		// the two small shipped tables as whole seeds (every truncation and bit flip: AmlRobustPlansTab.cfg)
+		for _, tb := range c12Tables[:2] {
+			aml, err := c12Fixture(tb)
+			if err != nil {
+				t.Fatal(err)
+			}
+			emit("table:"+tb, aml)
+		}
+		return
+	}
 	seen := map[string]bool{}
 	// directed seeds: a package-bearing object (Buffer / Package) in the TermArg position of another
 	// package-bearing construct, so that the PkgLength plans cover "inner package ends after the outer one"
@@ -673,6 +697,15 @@ func c12DirectedSeeds() [][]byte {
 		c12Cat(dev(a, dev(b)), c12Pkg([]byte{0x14}, 1, []byte{0x2f, 0x03}, a, b, b, []byte{0})), // Method(A.B.B) into a grandchild scope
 		c12Cat(dev(a), c12Pkg([]byte{0x5b, 0x82}, 1, []byte{'\\', 0x2e}, a, b)),                 // Device(\A.B) into a sibling's scope
 		c12Cat([]byte{0x5b, 0x01, 0x2e}, a, b, []byte{0}, dev(b)),                               // Mutex(A.B) then Device(B)
+	)
+	// PkgLength encodings of three and four bytes (legal for any length) on every package-bearing kind
+	atEnd = append(atEnd,
+		c12Pkg([]byte{0x10}, 3, []byte("\\_SB_"), nm("A001", one)),
+		c12Pkg([]byte{0x14}, 4, []byte("M004"), []byte{0}, []byte{0xa4, 0x01}),
+		nm("BUF6", c12Pkg([]byte{0x11}, 3, []byte{0x0a, 2}, []byte{1, 2})),
+		nm("PKG3", c12Pkg([]byte{0x12}, 4, []byte{1}, one)),
+		c12Cat(opr("TOP1"), c12Pkg([]byte{0x5b, 0x81}, 3, []byte("TOP1"), []byte{0x05}, conn(c12Pkg([]byte{0x11}, 4, []byte{0x0a, 2}, []byte{8, 9})))),
+		c12Pkg([]byte{0x5b, 0x82}, 2, []byte("DEV1"), c12Pkg([]byte{0x14}, 3, []byte("M005"), []byte{0}, c12Pkg([]byte{0xa0}, 4, one, []byte{0xa4, 0x01}))),
 	)
 	return append(atEnd, [][]byte{
 		c12Cat(nm("BUF0", buf(inner, 1)), tail),
@@ -806,7 +839,11 @@ func c12Generate(kind string, seed int64, n int) ([]*c12Input, error) {
 		for i := 0; i < n; i++ {
 			switch i % 4 {
 			case 0:
-				b := make([]byte, rng.Intn(49))
+				n := rng.Intn(49)
+				if i%64 == 0 { // arbitrary bytes come in every length: now and then a long string
+					n = 49 + rng.Intn(4048)
+				}
+				b := make([]byte, n)
 				rng.Read(b)
 				add("random-bytes", nil, b)
 			case 1:
@@ -841,8 +878,113 @@ func c12Generate(kind string, seed int64, n int) ([]*c12Input, error) {
 			}
 			add(src, pre, b)
 		}
+	case "scale":
+		// n = largest size in bytes.  Long and deep inputs: the bound on time (and stack) is proportional
+		// to the input, so the property is about every size, not only about what fits a small seed.
+		for _, c := range c12Scale(n) {
+			ins = append(ins, &c12Input{ID: fmt.Sprintf("z%d.%d", seed, len(ins)+1), Src: c.name, Hex: hex.EncodeToString(c.b), data: c.b})
+		}
+		// tables shorter than their own header: every length from the end of the length field on
+		for l := 8; l <= c12HeaderLen; l++ {
+			ins = append(ins, &c12Input{ID: fmt.Sprintf("z%d.%d", seed, len(ins)+1), Src: fmt.Sprintf("header only, %d bytes", l), Short: l, data: []byte{}})
+		}
+	case "sweep":
+		// n = stride.  Every n-th truncation point of the big shipped table (phase = seed mod n; the two
+		// small tables are swept completely by TLC, see AmlRobustPlansTab.cfg)
+		if n < 1 {
+			n = 1
+		}
+		b := fixtures[2]
+		for k := int(seed % int64(n)); k < len(b); k += n {
+			ins = append(ins, &c12Input{ID: fmt.Sprintf("w%d.%d", seed, len(ins)+1), Src: fmt.Sprintf("DSDT+Truncate(%d)", k), Hex: hex.EncodeToString(b[:k]), data: b[:k]})
+		}
 	default:
 		return nil, fmt.Errorf("unknown C12_GEN %q", kind)
 	}
 	return ins, nil
+}
+
+type c12Named struct {
+	name string
+	b    []byte
+}
+
+// c12Nest wraps leaf into depth packages op PkgLength hdr(i) ...
+func c12Nest(op []byte, hdr func(int) []byte, depth int, leaf []byte) []byte {
+	b := leaf
+	for i := 0; i < depth; i++ {
+		b = c12Pkg(op, 1, hdr(i), b)
+	}
+	return b
+}
+
+// c12Scale builds long, deep and wide programs of up to max bytes: chains of one-byte operators
+// (every byte one more nesting level), deeply nested packages of every scoped kind, long sibling
+// lists, long names, strings and buffers.
+func c12Scale(max int) []c12Named {
+	var out []c12Named
+	rep := func(b byte, n int) []byte {
+		r := make([]byte, n)
+		for i := range r {
+			r[i] = b
+		}
+		return r
+	}
+	name4 := func(p byte, i int) []byte { return []byte(fmt.Sprintf("%c%03X", p, i%4096)) }
+	var sizes []int
+	for _, n := range []int{64, 1024, 8192, 65536, 1 << 20} {
+		if n <= max {
+			sizes = append(sizes, n)
+		}
+	}
+	for _, n := range sizes {
+		add := func(name string, parts ...[]byte) {
+			out = append(out, c12Named{fmt.Sprintf("%s x%d", name, n), c12Cat(parts...)})
+		}
+		add("Store(One,RefOf(RefOf(..)))", []byte{0x70, 0x01}, rep(0x71, n), []byte{0x60})
+		add("Store(DerefOf(DerefOf(..)))", []byte{0x70}, rep(0x83, n), []byte{0x60, 0x60})
+		add("Increment(Increment(..))", rep(0x75, n), []byte{0x60})
+		add("SizeOf(SizeOf(..))", rep(0x87, n), []byte{0x60})
+		add("LNot(LNot(..))", rep(0x92, n), []byte{0x60})
+		add("Add(Add(..))", rep(0x72, n/3), rep(0x60, 2*(n/3)+1))
+		add("Noop list", rep(0xa3, n))
+		add("Ones list", rep(0xff, n))
+		var names, same, scopes, calls []byte
+		for i := 0; i < n/6; i++ {
+			names = append(names, c12Cat([]byte{0x08}, name4('N', i), []byte{0x01})...)
+			same = append(same, 0x08, 'A', 'A', 'A', 'A', 0x01)
+		}
+		for i := 0; i < n/7; i++ {
+			scopes = append(scopes, 0x10, 0x06, '\\', '_', 'S', 'B', '_')
+			calls = append(calls, 'M', 'T', 'H', '1')
+		}
+		add("Name list", names)
+		add("Name list, one name", same)
+		add("Scope(\\_SB_){} list", scopes)
+		add("MTH1(MTH1(..))", []byte{0x14, 0x08, 'M', 'T', 'H', '1', 0x01, 0xa4, 0x68}, calls, []byte{0x01})
+		add("long string", []byte{0x08, 'S', 'T', 'R', '0', 0x0d}, rep('A', n), []byte{0})
+		add("long buffer", []byte{0x08, 'B', 'U', 'F', '0'}, c12Pkg([]byte{0x11}, 1, []byte{0x0a, 4}, rep(7, n)))
+		add("carets", []byte{0x08}, rep('^', n), []byte("AAAA"), []byte{1})
+		var units []byte
+		for i := 0; i < n/5; i++ {
+			units = append(units, c12Cat(name4('F', i), []byte{8})...)
+		}
+		add("Field with many units", []byte{0x5b, 0x80, 'R', 'E', 'G', '0', 0, 0x0a, 0, 0x0a, 0x10}, c12Pkg([]byte{0x5b, 0x81}, 1, []byte("REG0"), []byte{1}, units))
+		d := n / 8
+		add("nested Scope", c12Nest([]byte{0x10}, func(int) []byte { return []byte("\\_SB_") }, d, nil))
+		add("nested Device", c12Nest([]byte{0x5b, 0x82}, func(i int) []byte { return name4('D', i) }, d, nil))
+		add("nested Device, one name", c12Nest([]byte{0x5b, 0x82}, func(int) []byte { return []byte("DEV0") }, d, nil))
+		add("nested Method", c12Nest([]byte{0x14}, func(i int) []byte { return append(name4('M', i), 0) }, d, nil))
+		add("nested If", c12Pkg([]byte{0x14}, 1, []byte("MTH0"), []byte{0}, c12Nest([]byte{0xa0}, func(int) []byte { return []byte{0x01} }, d, nil)))
+		add("nested While", c12Pkg([]byte{0x14}, 1, []byte("MTH0"), []byte{0}, c12Nest([]byte{0xa2}, func(int) []byte { return []byte{0x01} }, d, nil)))
+		add("nested Package", []byte{0x08, 'P', 'K', 'G', '0'}, c12Nest([]byte{0x12}, func(int) []byte { return []byte{0x01} }, d, nil))
+		add("nested Buffer size", []byte{0x08, 'B', 'U', 'F', '0'}, c12Nest([]byte{0x11}, func(int) []byte { return nil }, d, []byte{0x0a, 0x01}))
+	}
+	segs := 255
+	var path []byte
+	for i := 0; i < segs; i++ {
+		path = append(path, 'A', 'A', 'A', 'A')
+	}
+	out = append(out, c12Named{"multi-name path, 255 segments", c12Cat([]byte{0x08, 0x2f, byte(segs)}, path, []byte{1})})
+	return out
 }
